@@ -458,6 +458,17 @@ func main() {
 	}
 	bins := make([]string, len(def.Parts))
 	overlays := map[string]string{}
+	if os.Getenv("VERIF_COVER") != "" {
+		// coverage mode (development aid): Engine-R parts only
+		var keep []partDef
+		for _, part := range def.Parts {
+			if part.Engine == "R" {
+				keep = append(keep, part)
+			}
+		}
+		def.Parts = keep
+		bins = make([]string, len(def.Parts))
+	}
 	for pi, part := range def.Parts {
 		if replay != "" && pi != replayPart {
 			continue
@@ -471,7 +482,16 @@ func main() {
 			overlays[part.Engine] = ov
 		}
 		bins[pi] = filepath.Join(work, fmt.Sprintf("checkbin%d", pi))
-		out, err := run(verifDir, goEnv(), "go", "build", "-tags", "verif", "-overlay", ov, "-o", bins[pi], part.Pkg)
+		buildArgs := []string{"build", "-tags", "verif", "-overlay", ov}
+		if os.Getenv("VERIF_COVER") != "" {
+			// development aid: statement coverage of eino by the check (GOCOVERDIR = $VERIF_COVER/<id>-<part>)
+			// (real packages only: the cover tool does not read overlay-only packages; meaningful for Engine R, whose
+			// eino sources are not replaced)
+			e := "github.com/cloudwego/eino/"
+			buildArgs = append(buildArgs, "-cover", "-covermode=atomic", "-coverpkg="+e+"compose,"+e+"schema,"+e+"callbacks,"+e+"internal/...,"+e+"flow/...,"+e+"utils/...,"+e+"components/...,verif/"+strings.TrimPrefix(part.Pkg, "./"))
+		}
+		buildArgs = append(buildArgs, "-o", bins[pi], part.Pkg)
+		out, err := run(verifDir, goEnv(), "go", buildArgs...)
 		if err != nil {
 			fmt.Fprintf(os.Stderr, "%s\n", out)
 			fmt.Fprintf(os.Stderr, "check: build of %s (%s) against the current /repo tree failed (infrastructure error)\n", id, part.Pkg)
@@ -521,6 +541,11 @@ func main() {
 				}
 				cmd := exec.Command(bin, a...)
 				cmd.Env = append(os.Environ(), fmt.Sprintf("GOMAXPROCS=%d", part.MaxProcs), "GOMEMLIMIT=3GiB", "GOGC=400")
+				if cd := os.Getenv("VERIF_COVER"); cd != "" {
+					d := filepath.Join(cd, fmt.Sprintf("%s-%d", id, pi))
+					os.MkdirAll(d, 0o755)
+					cmd.Env = append(cmd.Env, "GOCOVERDIR="+d)
+				}
 				var buf bytes.Buffer
 				cmd.Stdout, cmd.Stderr = &buf, &buf
 				done := make(chan error, 1)
